@@ -126,6 +126,37 @@ pub mod micromap {
         uninterp spec fn decrease(&self) -> Option<nat>;
         uninterp spec fn peek(&self, i: int) -> Option<(&'a K, &'a V)>;
     }
+
+    // ---- itertools `sorted_by_key(|e| e.0)` on the pair iterator: the pairs in the order of their keys ----
+    /// the pairs of s in ascending key order (keys are distinct, so this is a function of s); the order on K is the one
+    /// `Ord for K` defines and is not modelled further
+    pub uninterp spec fn sorted_pairs<K, V>(s: Seq<(K, V)>) -> Seq<(K, V)>;
+    /// sorting permutes
+    pub broadcast axiom fn axiom_sorted_pairs_perm<K, V>(s: Seq<(K, V)>)
+        ensures (#[trigger] sorted_pairs(s)).to_multiset() == s.to_multiset(), sorted_pairs(s).len() == s.len();
+    /// with distinct keys the sorted order does not depend on the order the pairs were inserted in
+    pub broadcast axiom fn axiom_sorted_pairs_canonical<K, V>(s: Seq<(K, V)>, t: Seq<(K, V)>)
+        requires
+            s.to_multiset() == t.to_multiset(),
+            forall|i: int, j: int| 0 <= i < j < s.len() ==> s[i].0 != s[j].0,
+        ensures #[trigger] sorted_pairs(s) == #[trigger] sorted_pairs(t);
+    /// "o is the key k" for whatever type the key function returns; for `&K` it means `*o == *k`
+    pub uninterp spec fn key_is<KK, K>(o: KK, k: &K) -> bool;
+    pub broadcast axiom fn axiom_key_is_ref<'a, K>(o: &'a K, k: &'a K)
+        ensures #[trigger] key_is::<&'a K, K>(o, k) == (*o == *k);
+    impl<'a, K: Ord, V> Iter<'a, K, V> {
+        #[verifier::external_body]
+        pub fn sorted_by_key<KK: Ord, F: FnMut(&(&'a K, &'a V)) -> KK>(self, f: F) -> (r: std::vec::IntoIter<(&'a K, &'a V)>)
+            requires self.pos() == 0,
+            ensures
+                r.obeys_prophetic_iter_laws(),
+                // provided the key function is the projection on the key
+                (forall|k: &'a K, v: &'a V, o: KK| #[trigger] f.ensures((&(k, v),), o) ==> key_is(o, k)) ==> {
+                    &&& r.remaining().len() == self.src().len()
+                    &&& forall|i: int| 0 <= i < self.src().len() ==> *(#[trigger] r.remaining()[i]).0 == sorted_pairs(self.src())[i].0 && *r.remaining()[i].1 == sorted_pairs(self.src())[i].1
+                },
+        { unimplemented!() }
+    }
     impl<K: Clone, V: Clone, const N: usize> Clone for Map<K, V, N> {
         #[verifier::external_body]
         fn clone(&self) -> (r: Self) ensures r.view() == self.view() { unimplemented!() }
